@@ -597,6 +597,20 @@ func (s *Session) checkEntities(o *Obs) error {
 				break
 			}
 		}
+		// the same listing through GET /datasets/{ds}/entities?from=&limit= (unpaged, pages of 1 and of 2)
+		if os.Getenv("VERIF_HTTP_CHG") != "0" && s.Ad.Name() == "go" {
+			for _, size := range []int{0, 1, 2} {
+				got, err := s.httpWalk("/datasets/"+real+"/entities", "from", size, false, false, len(exp)+3)
+				if err != nil {
+					return err
+				}
+				s.Checks++
+				if !sameBag(exp, got) {
+					s.diverge("entities-http-walk", map[string]any{"ds": n, "limit": size}, exp, got, "")
+					break
+				}
+			}
+		}
 	}
 	return nil
 }
@@ -726,6 +740,11 @@ func (s *Session) checkChanges(o *Obs) error {
 // httpChangesWalk reads a change feed through the HTTP handler page by page, following the continuation
 // tokens, until a page brings no entity (forward) or no token (reverse).
 func (s *Session) httpChangesWalk(real string, lim int, lo, reverse bool, maxPages int) ([]CEntity, error) {
+	return s.httpWalk("/datasets/"+real+"/changes", "since", lim, lo, reverse, maxPages)
+}
+
+// httpWalk pages through GET <path> (changes: token parameter "since"; entities: "from").
+func (s *Session) httpWalk(path, tokParam string, lim int, lo, reverse bool, maxPages int) ([]CEntity, error) {
 	h, err := s.W.Web()
 	if err != nil {
 		return nil, err
@@ -744,13 +763,13 @@ func (s *Session) httpChangesWalk(real string, lim int, lo, reverse bool, maxPag
 			q.Set("reverse", "true")
 		}
 		if tok != "" {
-			q.Set("since", tok)
+			q.Set(tokParam, tok)
 		}
-		req := httptest.NewRequest(http.MethodGet, "/datasets/"+real+"/changes?"+q.Encode(), nil)
+		req := httptest.NewRequest(http.MethodGet, path+"?"+q.Encode(), nil)
 		rec := httptest.NewRecorder()
 		h.ServeHTTP(rec, req)
 		if rec.Code != 200 {
-			return nil, fmt.Errorf("GET changes: %d %s", rec.Code, rec.Body.String())
+			return nil, fmt.Errorf("GET %s: %d %s", path, rec.Code, rec.Body.String())
 		}
 		var elems []json.RawMessage
 		if err := json.Unmarshal(rec.Body.Bytes(), &elems); err != nil {
